@@ -7,12 +7,17 @@ Tie: harness/c16/wb.cpp is linked with every /repo/src/tbb/*.cpp of the current 
           global_control create/destroy through threading_control::set_active_num_workers
   E-SHIM  arena::occupy_free_slot<worker> / arena_slot::release and thread_request_serializer::update under controlled
           schedules, every atomic access replayed by the Lean interleaving models
+Second half (checks/c16b.py, harness/c16/rt.cpp, `mand` mode of wb.cpp): isolation filters / tags, mandatory-concurrency
+decisions and observer call sites regenerated from the source (E-GEN); the Iso / Mand / Obs models and their theorems;
+op-level differential of the isolation take points on a real arena; access-level replay of advertise_new_work /
+out_of_work; whole-runtime E-SHIM scenario programs with isolation / budget / bound / observer / at-rest monitors.
 """
 import glob
 import json
 import os
 
 from common import (BuildError, REPO, SHIM_FLAGS, SHIM_SRC, cxx_build, drv, first_diff, gen_write, log, sh)
+import c16b
 
 INT_MAX = (1 << 31) - 1
 
@@ -39,7 +44,11 @@ def gen(ck):
     body = "def pendingDeltaBase : Nat := %d\ndef pendingDeltaBaseLog2 : Nat := %d\n" % (base, lg)
     for k in ("numPriorityLevels", "refExternalBits", "intBits", "pendingWordBits"):
         body += "def %s : Nat := %d\n" % (k, c[k])
-    gen_write("C16", body)
+    text2, obl2, srcs2 = c16b.gen_part2()
+    gen_write("C16", body + text2)
+    ck.extra["generated_conditions"] = srcs2
+    for name, ok, detail in obl2:
+        ck.oblige(name, "generated", ok, detail)
     ck.oblige("gen:pendingDeltaBase is a power of two below 2^30 (mask/counter arithmetic of update())", "generated",
               base == 1 << lg and 1 <= base < (1 << 30), c)
     ck.oblige("gen:int is 32 bit, my_pending_delta is 64 bit", "generated", c["intBits"] == 32 and c["pendingWordBits"] == 64, c)
@@ -845,7 +854,15 @@ def run(ck):
                "op sequences (register/unregister/adjust_demand following the arena flag protocol and free-form/set_active_num_workers) through the real "
                "threading_control_impl; global_control create/destroy sequences (<= 8 live). E-SHIM: 2-5 threads entering/leaving arenas of 1-4 slots "
                "(0-2 reserved) and 2-5 concurrent update() calls under random and bounded-preemption (2) schedules. "
-               "distinct = distinct (kind, limit class, mandatory, #levels, #clients, outcome class) tuples")
+               "distinct = distinct (kind, limit class, mandatory, #levels, #clients, outcome class) tuples. "
+               "Second half: E-SHIM 2-4 threads running random programs of enqueue / spawn / out_of_work / pops on one real arena of the white-box world "
+               "(max_concurrency 1-3, reserved 0-2, soft limit 0-2), random + bounded-preemption schedules, every access to the two atomic_flag words replayed; "
+               "E-PURE random sequences (20-300 operations, 2-4 slots) of dispatch-loop / isolate / spawn / affinity spawn / enqueue / critical / idle-flag / take "
+               "operations played by one thread on a real arena of the whole instrumented runtime; E-SHIM whole runtime: 19 targeted scenario programs "
+               "(isolation with plain / mailed / enqueued / critical / nested work, mandatory concurrency incl. out_of_work while a slot holds a task the idle "
+               "isolated thread cannot take, worker budget L=1..3, observers with arenas created and destroyed, over-subscribed and one-thread arenas) and random "
+               "programs (1-3 external threads, 1-2 arenas of 1-3 slots, L=1..4, nested tg / pfor / isolate / enqueue / critical, observers, quiescence checks) "
+               "under seeded random schedules with 5 different stay probabilities; one process per run")
     ck.assumptions += [
         "modelled: update_allotment (exact loop structure), arena::update_request, market adjust_demand/set_active_num_workers words, "
         "thread_request_serializer (limit_delta, packed my_pending_delta, update/drain under interleaving, proxy mandatory concurrency), "
@@ -858,11 +875,33 @@ def run(ck):
         "op-sequence runs (sampled), not proved for the machine",
         "per-arena num_workers_active <= allotted is NOT claimed: try_join is check-then-add under a shared lock (transient overshoot bounded by the slot count, "
         "corrected by recall); the budget theorem is about the allotment and about the sum handed to the thread server",
-        "not modelled / no theorem: isolation filters, observer entry/exit pairing, thread creation in the rml server, arena creation/destruction, TCM permit manager",
+        "isolation is modelled at the level of one serialised operation per container (the atomic-access protocols of the deque, proxy, mailbox and stream are C01's); "
+        "not modelled: the resume stream (resume tasks carry no_isolation and are exempt by an assertion in the dispatcher), bypassed tasks (inherit the execute data), the re-spawn "
+        "of a stolen task when a critical task is found right after the steal, task_arena::execute inside isolate (it resets the isolation word: by design), and re-use of an "
+        "isolation tag (the address of the delegate) by a later region while tasks of the earlier region are still outstanding",
+        "isolation tags: the theorem identifies a region with its tag; two regions that are alive at the same time have different tags (addresses of live stack objects)",
+        "mandatory concurrency: one arena; has_tasks() is an oracle (its value is irrelevant to the mandatory accounting); the two critical sections of adjust_demand are atomic steps; "
+        "the allotment consequence (no worker under soft limit 0 without a mandatory request) is allot_softzero_none",
+        "observers: one notification pass is one step (the list is protected by a reader-writer lock); a proxy is never unlinked in the model (unlinking an unreferenced dead proxy "
+        "does not change the order of the others); exits for observers deactivated while a thread is inside are not required (documented behaviour of observe(false))",
+        "worker budget end-to-end (at most L-1 workers inside user bodies) and the per-arena concurrency bound are covered by sampled whole-runtime monitors plus the theorems on "
+        "allotment / serializer / slots / mandatory accounting; under L=1 the monitor allows the one mandatory worker from an enqueue (or a delegated execute on a possibly full arena) "
+        "until the arena's next quiescent checkpoint; the checkpoint lets the arena settle for 400 scheduling points after out_of_work() because arena::try_join is "
+        "check-then-add: a worker that read a positive allotment just before the mandatory request was withdrawn still joins afterwards and may run one more task before "
+        "its next recall check (seen once in 8 800 runs of one scenario before the settling phase was added; transient, corrected by recall)",
+        "known finding one-thread-arena-second-external-thread: task_arena(1) has a second slot for the mandatory worker which occupy_free_slot<false> also hands to a second external "
+        "thread; random scenarios avoid that shape, a dedicated scenario demonstrates it",
+        "known finding emptied-proxy-keeps-arena-nonempty-finalize-hangs: an emptied task_proxy (or a hole) left in a slot's pool keeps has_tasks() true when no thread is left to "
+        "scan it; the whole-runtime harness reports it (monitor STUCK, own obligation), then drops the leftovers white-box so that the run can end; a dedicated scenario demonstrates it "
+        "deterministically; harness/c16/demo_finalize_hang.cpp shows the resulting tbb::finalize() hang on the uninstrumented library",
+        "not modelled / no theorem: thread creation in the rml server, arena creation/destruction, TCM permit manager",
         "slots: the start index of a range scan is treated as an arbitrary choice (FastRandom / last index); memory orders are compared in the trace, the proof is over "
         "sequentially consistent interleavings (the protocol has a single word per slot and uses a seq_cst exchange)"]
     ck.trusted += ["harness/c16/wb.cpp (white-box construction of market/serializer/threading_control_impl without threads; fake rml server; "
-                   "arena words my_max_num_workers set directly)", "harness/shim (E-SHIM runtime)", "checks/c16.py monitors and line formats",
+                   "arena words my_max_num_workers set directly)", "harness/shim (E-SHIM runtime)", "checks/c16.py + checks/c16b.py monitors, line formats and the regex / expression translator of the E-GEN conditions",
+                   "harness/c16/rt.cpp (whole-runtime scenario interpreter, ghost-state monitors, puppet that plays every slot of a real arena from one thread; "
+                   "isolate_within_arena's two statements and the dispatcher's `ed.isolation = isolation(*t)` after get_task are replayed by the puppet, their text is E-GEN checked)",
+                   "Driver/C16.lean: composition of one receive_or_steal_task pass from model operations (c16iso), inference of silent steps / oracles from the trace (c16mand)",
                    "correspondence is sampled (differential), not proved"]
     exe, consts = gen(ck)
     ck.extra["model_ok"] = bool(ck.lean_stage())
@@ -878,6 +917,10 @@ def run(ck):
     run_gc(ck, exe, consts)
     run_slots(ck, exe)
     run_pend(ck, exe, consts)
+    c16b.run_mand(ck, exe, sh, drv)
+    rt = c16b.build_rt()
+    c16b.run_iso(ck, rt, sh, drv, first_diff)
+    c16b.run_rt(ck, rt, sh)
 
 
 def replay(ck, obj):
@@ -930,6 +973,8 @@ def replay(ck, obj):
             if w[0] != "reset" and (int(f["value"]) != (min(lv.values()) if lv else r["default"]) or int(f["soft"]) != int(f["value"]) - 1):
                 print("monitor: active value / applied limit wrong here")
                 still = True
+    elif mode in ("mand", "iso", "scen"):
+        still = c16b.replay_part2(ck, r, sh, drv)
     else:
         rc, runs, out, err = shim_run(exe, mode, r["stdin"], "replay", r["schedule"], 1)
         print(out[-3000:])
